@@ -9,6 +9,7 @@ package c18
 import (
 	"encoding/hex"
 	"fmt"
+	"math/big"
 	"math/rand"
 	"sort"
 	"strings"
@@ -40,6 +41,7 @@ import (
 	fxgov "github.com/functionx/fx-core/v8/x/gov"
 	ibcmwtypes "github.com/functionx/fx-core/v8/x/ibc/middleware/types"
 
+	"fxverif/harness/evmx"
 	"fxverif/harness/hx"
 )
 
@@ -60,6 +62,8 @@ func TestC18(t *testing.T) {
 		e.runAtt(out)
 		e.runIBC(out)
 		e.runGov(out)
+		e.runGovBlocks(out)
+		e.runXC(out)
 	}
 }
 
@@ -1028,6 +1032,371 @@ func (e *env) gov(out *hx.Out, n, failIdx int, failKind string) {
 			}
 		} else if sa != govv1.StatusPassed {
 			out.Violate(fmt.Sprintf("gov: harness proposal with %d valid messages did not pass: %s", n, sa))
+		}
+	})
+}
+
+// ---------------------------------------------------------------------------------------------------------
+// boundary 3, a BLOCK of proposals: several proposals whose voting period ends in the same block, in every order
+
+type govSpec struct {
+	n, failIdx int
+	kind       string
+}
+
+func (e *env) runGovBlocks(out *hx.Out) {
+	kind := func() string { return govFailKinds[e.rng.Intn(len(govFailKinds))] }
+	n := func() int { return 1 + e.rng.Intn(3) }
+	pos := func(n int) int { return []int{0, n / 2, n - 1}[(e.round+e.rng.Intn(3))%3] } // first / middle / last
+	fail := func() govSpec { m := n(); return govSpec{m, pos(m), kind()} }
+	pass := func() govSpec { return govSpec{n(), -1, ""} }
+	e.govBlock(out, []govSpec{fail(), pass()})         // fail, then pass
+	e.govBlock(out, []govSpec{pass(), fail()})         // pass, then fail
+	e.govBlock(out, []govSpec{fail(), fail()})         // fail, fail
+	e.govBlock(out, []govSpec{fail(), pass(), fail()}) // three proposals
+	three := []govSpec{pass(), fail(), pass()}
+	e.rng.Shuffle(3, func(i, j int) { three[i], three[j] = three[j], three[i] })
+	e.govBlock(out, three)
+}
+
+// govBlock submits all proposals in the same block (same voting end time; EndBlocker walks them in id order) and runs
+// ONE EndBlocker.  Reference run on a sibling branch: every proposal expected to fail is replaced by a single overdrawn
+// send (fails without any write), the others are identical.  Everything except the proposal records must be equal:
+// state after = designated outcome of each failed proposal + effects of each passed one.
+func (e *env) govBlock(out *hx.Out, specs []govSpec) {
+	s := e.s
+	govAcc := authtypes.NewModuleAddress(govtypes.ModuleName)
+	e.branch(func(ctx sdk.Context) {
+		s.MintToken(govAcc, sdk.NewCoin(fxtypes.DefaultDenom, sdkmath.NewInt(1_000_000)))
+		overdrawn := func() sdk.Msg {
+			return &banktypes.MsgSend{FromAddress: govAcc.String(), ToAddress: sdk.AccAddress(e.randAddr().Bytes()).String(), Amount: sdk.NewCoins(sdk.NewCoin(fxtypes.DefaultDenom, sdkmath.NewIntWithDecimal(1, 40)))}
+		}
+		call := func(code []byte) *fxevmtypes.MsgCallContract {
+			target := e.randAddr()
+			if code != nil {
+				if err := s.App.EvmKeeper.CreateContractWithCode(ctx, target, code); err != nil {
+					panic(err)
+				}
+			}
+			return &fxevmtypes.MsgCallContract{Authority: govAcc.String(), ContractAddress: target.Hex(), Data: "00"}
+		}
+		type built struct {
+			msgs, ref  []sdk.Msg
+			recipients []sdk.AccAddress
+			contracts  []common.Address
+		}
+		var props []built
+		for _, sp := range specs {
+			var b built
+			for i := 0; i < sp.n; i++ {
+				if i != sp.failIdx {
+					if e.rng.Intn(3) == 0 {
+						m := call(codeStoreSuccess)
+						b.contracts = append(b.contracts, common.HexToAddress(m.ContractAddress))
+						b.msgs = append(b.msgs, m)
+					} else {
+						to := sdk.AccAddress(e.randAddr().Bytes())
+						b.recipients = append(b.recipients, to)
+						b.msgs = append(b.msgs, &banktypes.MsgSend{FromAddress: govAcc.String(), ToAddress: to.String(), Amount: sdk.NewCoins(sdk.NewCoin(fxtypes.DefaultDenom, sdkmath.NewInt(int64(1+e.rng.Intn(1000)))))})
+					}
+					continue
+				}
+				switch sp.kind {
+				case "overdrawn":
+					b.msgs = append(b.msgs, overdrawn())
+				case "evmrevert":
+					b.msgs = append(b.msgs, call(codeRevert))
+				case "evmstorerevert":
+					b.msgs = append(b.msgs, call(codeStoreRevert))
+				case "evminvalid":
+					b.msgs = append(b.msgs, call(codeInvalid))
+				case "evmoog":
+					b.msgs = append(b.msgs, call(codeStoreLoop))
+				case "nocontract":
+					b.msgs = append(b.msgs, call(nil))
+				case "panic":
+					fee, err := s.App.CrisisKeeper.ConstantFee.Get(ctx)
+					if err != nil {
+						panic(err)
+					}
+					s.MintToken(govAcc, fee)
+					ghost := sdk.AccAddress(e.randAddr().Bytes())
+					huge := sdk.NewCoins(sdk.NewCoin(fxtypes.DefaultDenom, sdkmath.NewIntWithDecimal(1, 40)))
+					if err := s.App.GovKeeper.Keeper.Deposits.Set(ctx, collections.Join(uint64(1<<40), ghost), govv1.Deposit{ProposalId: 1 << 40, Depositor: ghost.String(), Amount: huge}); err != nil {
+						panic(err)
+					}
+					b.msgs = append(b.msgs, &crisistypes.MsgVerifyInvariant{Sender: govAcc.String(), InvariantModuleName: govtypes.ModuleName, InvariantRoute: "module-account"})
+				}
+			}
+			b.ref = b.msgs
+			if sp.failIdx >= 0 {
+				b.ref = []sdk.Msg{overdrawn()}
+			}
+			props = append(props, b)
+		}
+		// one block: submit, deposit, vote on every proposal at the same block time, then ONE EndBlocker
+		runBlock := func(ctx sdk.Context, pick func(b built) []sdk.Msg) (kvDump, []govv1.ProposalStatus, string) {
+			gk := s.App.GovKeeper
+			proposer := sdk.AccAddress(s.ValAddr[0])
+			params, err := gk.Params.Get(ctx)
+			if err != nil {
+				panic(err)
+			}
+			dep := sdk.NewCoins(params.MinDeposit...).MulInt(sdkmath.NewInt(100))
+			var ids []uint64
+			var end time.Time
+			for _, b := range props {
+				s.MintToken(proposer, dep...)
+				p, err := gk.Keeper.SubmitProposal(ctx, pick(b), "", "t", "s", proposer, false)
+				if err != nil {
+					return nil, nil, "submit: " + err.Error()
+				}
+				if _, err := gk.Keeper.AddDeposit(ctx, p.Id, proposer, dep); err != nil {
+					return nil, nil, "deposit: " + err.Error()
+				}
+				for _, v := range s.ValAddr {
+					if err := gk.Keeper.AddVote(ctx, p.Id, sdk.AccAddress(v), govv1.NewNonSplitVoteOption(govv1.OptionYes), ""); err != nil {
+						return nil, nil, "vote: " + err.Error()
+					}
+				}
+				p2, err := gk.Keeper.Proposals.Get(ctx, p.Id)
+				if err != nil || p2.VotingEndTime == nil {
+					return nil, nil, "no voting end time"
+				}
+				if p2.VotingEndTime.After(end) {
+					end = *p2.VotingEndTime
+				}
+				ids = append(ids, p.Id)
+			}
+			ectx := ctx.WithBlockTime(end.Add(time.Second))
+			cp := ectx.ConsensusParams()
+			nb := cmtproto.BlockParams{MaxBytes: 1 << 20}
+			if cp.Block != nil {
+				nb = *cp.Block
+			}
+			nb.MaxGas = 400_000
+			cp.Block = &nb
+			ectx = ectx.WithConsensusParams(cp)
+			if res := hx.Try(func() error { return fxgov.EndBlocker(ectx, gk) }); res != "ok" {
+				return nil, nil, "EndBlocker: " + firstLine(res)
+			}
+			var sts []govv1.ProposalStatus
+			for _, id := range ids {
+				p3, err := gk.Keeper.Proposals.Get(ctx, id)
+				if err != nil {
+					return nil, nil, "proposal lost"
+				}
+				sts = append(sts, p3.Status)
+			}
+			return dumpKV(ctx, e.keys), sts, ""
+		}
+		actx, _ := ctx.CacheContext()
+		bctx, _ := ctx.CacheContext()
+		saved := s.Ctx
+		s.Ctx = actx
+		da, sa, errA := runBlock(actx, func(b built) []sdk.Msg { return b.msgs })
+		s.Ctx = bctx
+		db, sb, errB := runBlock(bctx, func(b built) []sdk.Msg { return b.ref })
+		s.Ctx = saved
+		var shape []string
+		for _, sp := range specs {
+			if sp.failIdx >= 0 {
+				shape = append(shape, "fail")
+			} else {
+				shape = append(shape, "pass")
+			}
+		}
+		desc := strings.Join(shape, ",")
+		if strings.HasPrefix(errA, "EndBlocker: ") {
+			out.Violate(fmt.Sprintf("gov-block: proposals [%s] ending in the same block: a failing message was not tolerated, %s", desc, errA))
+			return
+		}
+		if errA != "" || errB != "" {
+			out.Count("govblock:setup-failed")
+			return
+		}
+		var extra []string
+		for _, k := range diffKV(da, db) {
+			if strings.HasPrefix(k, "gov/") {
+				continue
+			}
+			extra = append(extra, k)
+		}
+		var opw, obs []string
+		stName := map[govv1.ProposalStatus]string{govv1.StatusFailed: "failed", govv1.StatusPassed: "passed", govv1.StatusRejected: "rejected"}
+		for i, sp := range specs {
+			f, k := "-", "err"
+			if sp.failIdx >= 0 {
+				f = fmt.Sprint(sp.failIdx)
+			}
+			if sp.kind == "panic" {
+				k = "panic"
+			}
+			opw = append(opw, fmt.Sprintf("%d:%s:%s", sp.n, f, k))
+			paid := 0
+			for _, r := range props[i].recipients {
+				if s.App.BankKeeper.GetBalance(actx, r, fxtypes.DefaultDenom).IsPositive() {
+					paid++
+				}
+			}
+			for _, c := range props[i].contracts {
+				if s.App.EvmKeeper.GetState(actx, c, common.Hash{}) != (common.Hash{}) {
+					paid++
+				}
+			}
+			obs = append(obs, fmt.Sprintf("%s:%d", stName[sa[i]], paid))
+			want := govv1.StatusPassed
+			if sp.failIdx >= 0 {
+				want = govv1.StatusFailed
+			}
+			if sa[i] != want {
+				out.Violate(fmt.Sprintf("gov-block: proposals [%s] ending in the same block: proposal %d of %d ends as %s, expected %s", desc, i+1, len(specs), sa[i], want))
+			}
+			if sb[i] != want {
+				out.Violate(fmt.Sprintf("gov-block: reference block [%s]: proposal %d ends as %s, expected %s", desc, i+1, sb[i], want))
+			}
+			if sp.failIdx >= 0 {
+				out.Count("govblock:kind:" + sp.kind)
+			}
+		}
+		out.Emit("pgovb "+strings.Join(opw, " "), "flow=nil "+strings.Join(obs, " "))
+		out.Count("govblock:" + desc)
+		out.Nontrivial("govblock|" + strings.Join(opw, " "))
+		if len(extra) > 0 {
+			out.Violate(fmt.Sprintf("gov-block: proposals [%s] ending in the same block: state differs from (designated outcome of each failed proposal + effects of each passed one) in %s", desc, joinOrDash(categories(extra, e.chain))))
+		}
+	})
+}
+
+// ---------------------------------------------------------------------------------------------------------
+// boundary 2 through the REAL executeClaim precompile: a signed EVM transaction that is included in the block whether
+// it fails or not; when the claim handler fails hard the claim must stay pending and nothing must be credited
+
+func (e *env) runXC(out *hx.Out) {
+	if e.signer == nil {
+		e.signer = e.s.AddTestSigner(1000)
+	}
+	for _, sc := range []string{"bc-ok", "bc-revert", "bc-unknown-token", "bc-unknown-token", "bc-module-sender", "stf-ok", "stf-unknown-token"} {
+		e.xc(out, sc)
+	}
+}
+
+func (e *env) xc(out *hx.Out, sc string) {
+	e.branch(func(ctx sdk.Context) {
+		s := e.s
+		const nonce = 11
+		ntok := 1 + e.rng.Intn(3)
+		var toks []token
+		amts := make([]sdkmath.Int, ntok)
+		contracts := make([]string, ntok)
+		for i := 0; i < ntok; i++ {
+			toks = append(toks, e.addToken(e.rng.Intn(2) == 0))
+			amts[i] = sdkmath.NewInt(int64(1 + e.rng.Intn(500)))
+			contracts[i] = toks[i].contract
+		}
+		target, sender, refund := e.randAddr(), e.randAddr(), e.randAddr()
+		hard := false
+		point := sc
+		var claim crosschaintypes.ExternalClaim
+		switch sc {
+		case "bc-ok", "bc-revert", "bc-unknown-token", "bc-module-sender":
+			code := codeStoreSuccess
+			if sc == "bc-revert" {
+				code = codeStoreRevert
+			}
+			if err := s.App.EvmKeeper.CreateContractWithCode(ctx, target, code); err != nil {
+				panic(err)
+			}
+			if sc == "bc-unknown-token" {
+				k := e.rng.Intn(ntok) // the tokens before k are already credited when k fails
+				contracts[k] = e.ext(e.randAddr())
+				hard = true
+				point = fmt.Sprintf("%s(token %d of %d)", sc, k+1, ntok)
+			}
+			if sc == "bc-module-sender" {
+				sender = common.BytesToAddress(authtypes.NewModuleAddress(govtypes.ModuleName))
+				hard = true
+			}
+			claim = &crosschaintypes.MsgBridgeCallClaim{
+				ChainName: e.chain, BridgerAddress: sdk.AccAddress(e.randAddr().Bytes()).String(), EventNonce: nonce, BlockHeight: 1,
+				Sender: e.ext(sender), Refund: e.ext(refund), TokenContracts: contracts, Amounts: amts, To: e.ext(target),
+				Data: "", Value: sdkmath.ZeroInt(), Memo: "", TxOrigin: e.ext(e.randAddr()),
+			}
+		case "stf-ok", "stf-unknown-token":
+			c := contracts[0]
+			if sc == "stf-unknown-token" {
+				c = e.ext(e.randAddr())
+				hard = true
+			}
+			claim = &crosschaintypes.MsgSendToFxClaim{ChainName: e.chain, BridgerAddress: sdk.AccAddress(e.randAddr().Bytes()).String(), EventNonce: nonce, BlockHeight: 1,
+				TokenContract: c, Amount: amts[0], Sender: e.ext(sender), Receiver: sdk.AccAddress(target.Bytes()).String()}
+		}
+		e.k.SavePendingExecuteClaim(ctx, claim)
+		cross := crosschaintypes.GetAddress()
+		send := func(c sdk.Context, n int64) (string, bool) {
+			data, err := crosschaintypes.GetABI().Pack("executeClaim", e.chain, big.NewInt(n))
+			if err != nil {
+				panic(err)
+			}
+			tx, err := evmx.SignedTx(c, s.App, e.signer, cross, nil, data, 5_000_000, []common.Address{cross})
+			if err != nil {
+				panic(err)
+			}
+			txc, write := c.CacheContext()
+			var res string
+			failed := false
+			r := hx.Try(func() error {
+				resp, err := evmx.Send(txc, s.App, tx)
+				if err != nil {
+					return err
+				}
+				failed = resp.Failed()
+				res = resp.VmError
+				return nil
+			})
+			if r != "ok" {
+				return "rejected: " + firstLine(r), false // not included in the block
+			}
+			write() // the transaction is included, failed or not
+			if failed {
+				return "failed: " + res, true
+			}
+			return "ok", true
+		}
+		actx, _ := ctx.CacheContext()
+		bctx, _ := ctx.CacheContext()
+		ra, incA := send(actx, nonce)
+		rb, incB := send(bctx, 987654321) // reference: the same signer executes a claim that does not exist (fails at once)
+		if !incA || !incB || !strings.HasPrefix(rb, "failed") {
+			out.Violate(fmt.Sprintf("execute-claim precompile: harness: transaction not included or reference did not fail (%s): %s / %s", sc, ra, rb))
+			return
+		}
+		_, pending := e.k.GetPendingExecuteClaim(actx, nonce)
+		extra := diffKV(dumpKV(actx, e.keys), dumpKV(bctx, e.keys))
+		written := 0
+		if !pending || len(extra) > 0 {
+			written = 1
+		}
+		tag := "ok"
+		if strings.HasPrefix(ra, "failed") {
+			tag = "failed"
+		}
+		okw := "ok"
+		if hard {
+			okw = "fail"
+		}
+		out.Emit("pxc "+okw, fmt.Sprintf("tx=%s written=%d", tag, written))
+		out.Count("xc:" + sc + ":" + tag)
+		out.Nontrivial("xc|" + point)
+		if hard {
+			if tag != "failed" {
+				out.Violate(fmt.Sprintf("execute-claim precompile: the claim handler fails hard (%s) but the transaction succeeded", point))
+			}
+			if !pending || len(extra) > 0 {
+				out.Violate(fmt.Sprintf("execute-claim precompile: failed executeClaim transaction (%s) is included in the block and leaves writes of the failed claim handler: claim pending=%v, differing=%s (the claim must stay pending and nothing be credited)", point, pending, joinOrDash(categories(extra, e.chain))))
+			}
+		} else if tag != "ok" || pending {
+			out.Violate(fmt.Sprintf("execute-claim precompile: harness scenario %s expected to succeed: %s pending=%v", sc, ra, pending))
 		}
 	})
 }
